@@ -1,5 +1,6 @@
 import LabtechModel.Proofs.StoreRefine
 import LabtechModel.Proofs.LinkExample
+import LabtechModel.Proofs.LinkDumps
 /-!
 # C08 — Cache contents evolve exactly as run / bust_cache / uncache dictate
 
@@ -589,5 +590,54 @@ example :
     r3.status = .returned (returned [2, 1] a3) ∧ returned [2, 1] a3 = [(2, 3003), (1, 1003)] ∧
     a3.execd = [1] ∧ a3.loaded.map Prod.fst = [2] ∧ Lt.ranOf r3.trace = [2, 1] ∧ Lt.Ev.load 2 ∈ r3.trace := by
   decide
+
+end Lt.Props.C08
+
+/-! ## the `json.dumps` assumption proved
+
+`DumpsInjOn` is now a theorem (`Lt.Link.dumpsInjOn_of_wfFloats`, from `Lt.Params.dumps_injective`,
+`Proofs/DumpsInj.lean`) for every family of tasks whose float parameters carry float tokens
+(`Lt.Link.WfFloatsOn`, decidable per task).  `ShaInjOn` is the one named assumption that remains. -/
+namespace Lt.Props.C08
+open Lt.Store
+
+/-- `lab_refines_map_params` without the `json.dumps` assumption -/
+theorem lab_refines_map_params_dumps_proved (U : Universe) (sha1 : String → String) (task : Nat → Lt.Params.Task)
+    (hrep : Lt.Link.Represents U sha1 task) (hwf : Lt.Link.WfTasks U.n task) (hdist : Lt.Link.Distinct U.n task)
+    (hsha : Lt.Link.ShaInjOn sha1 U.n task) (hfl : Lt.Link.WfFloatsOn U.n task)
+    (hpre : ∀ T, U.namePrefix T T = true) (ops : List Op) (d : Disk) (wf : Wf U d) :
+    abs U (histC U d ops).1 = (histA U (abs U d) ops).1 ∧
+    outsSame (histC U d ops).2 (histA U (abs U d) ops).2 ∧
+    Wf U (histC U d ops).1 :=
+  lab_refines_map_params U sha1 task hrep hwf hdist hsha (Lt.Link.dumpsInjOn_of_wfFloats U.n task hfl)
+    hpre ops d wf
+
+/-- `labRun_agrees_with_scheduler_params` without the `json.dumps` assumption -/
+theorem labRun_agrees_with_scheduler_params_dumps_proved (U : Universe) (sha1 : String → String)
+    (task : Nat → Lt.Params.Task)
+    (hrep : Lt.Link.Represents U sha1 task) (hwf : Lt.Link.WfTasks U.n task) (hdist : Lt.Link.Distinct U.n task)
+    (hsha : Lt.Link.ShaInjOn sha1 U.n task) (hfl : Lt.Link.WfFloatsOn U.n task)
+    (mp : Nat → Option Nat) (g : Nat) (fl req : List Nat) (hU : Lt.Link.UOK U req)
+    (d : Disk) (wf : Wf U d)
+    (cfg : Lt.Config) (hcf : cfg.contOnFail = true) (fuel : Nat) (hF : ∀ t ∈ req, t < fuel)
+    (hL : 0 < cfg.maxWorkers ∧ ∀ T L, mp T = some L → 0 < L)
+    (sched : List Lt.Choice) (hfair : Lt.Fair sched)
+    (hlen : (neededFrom U (fun t => !cfg.bust && labIsCached U d t) req).length + 1 ≤ sched.length) :
+    (∀ t, Lt.lookup t (Lt.run cfg (Lt.Link.toProblem U mp g fl req) (Lt.Link.diskStore U d) fuel sched).store =
+      (cLoad U (labRun U cfg.bust g fl req d).disk t).map (fun s => s.val)) ∧
+    (Lt.run cfg (Lt.Link.toProblem U mp g fl req) (Lt.Link.diskStore U d) fuel sched).status =
+      .returned (returned (Lt.dedup req) (labRun U cfg.bust g fl req d)) :=
+  labRun_agrees_with_scheduler_params U sha1 task hrep hwf hdist hsha
+    (Lt.Link.dumpsInjOn_of_wfFloats U.n task hfl) mp g fl req hU d wf cfg hcf fuel hF hL sched hfair hlen
+
+/-- non-vacuity: all hypotheses of the `_dumps_proved` links hold together on `exPU` -/
+example : Lt.Link.UOK Lt.Link.exPU [2] ∧ Wf Lt.Link.exPU [] ∧
+    Lt.Link.Represents Lt.Link.exPU Lt.Link.exSha Lt.Link.exTask ∧ Lt.Link.WfTasks 3 Lt.Link.exTask ∧
+    Lt.Link.Distinct 3 Lt.Link.exTask ∧
+    Lt.Link.ShaInjOn Lt.Link.exSha 3 Lt.Link.exTask ∧ Lt.Link.WfFloatsOn 3 Lt.Link.exTask ∧
+    (∀ T, Lt.Link.exPU.namePrefix T T = true) :=
+  ⟨Lt.Link.exPU_uok [2] (by decide), wf_nil _, Lt.Link.exPU_represents,
+   Lt.Link.exTask_wf, Lt.Link.exTask_distinct, Lt.Link.exSha_injOn, Lt.Link.exTask_wfFloats,
+   fun T => by simp [Lt.Link.exPU, Lt.Link.paramsUniverse, Lt.Link.exBase]⟩
 
 end Lt.Props.C08
